@@ -108,11 +108,11 @@ theorem recover_scalar (d m k x r s k' : Nat) (hk0 : 0 < k) (hkn : k < n) (hrx :
   rw [← key]
   rcases hε with rfl | rfl <;> ring
 
-/-- `Signature.RecoverPublicKey` on an output of `Signature.Sign` (with R ≠ 0 mod n) returns the
-    signer's public key d·G. -/
-theorem recover_sign_core (d k r s recid : Nat) (hb : Bytes)
+/-- the point `Signature.recover` computes (before the test for infinity the current code applies to
+    it) on an output of `Signature.Sign` (with R ≠ 0 mod n) is the signer's public key d·G. -/
+theorem recover_sign_core_legacy (d k r s recid : Nat) (hb : Bytes)
     (h : sign d (beVal hb) k = some (r, s, recid)) (hr : r ≠ 0) :
-    recoverPublicKey r s hb recid = some (mul d G) := by
+    recoverPublicKeyLegacy r s hb recid = some (mul d G) := by
   obtain ⟨hk0, hkn, x, y, hxy, hrx, hs0, hcase⟩ := sign_spec d (beVal hb) k r s recid h
   have hlt : modInvN k * ((x % n * d % n + beVal hb) % n) % n < n := Nat.mod_lt _ n_pos
   have hrn : r < n := by rw [hrx]; exact Nat.mod_lt _ n_pos
@@ -134,10 +134,10 @@ theorem recover_sign_core (d k r s recid : Nat) (hb : Bytes)
         rw [Nat.mod_eq_sub_mod hge, Nat.mod_eq_of_lt (by omega)]
       omega
     · rw [if_neg (fun h => hge (hc.mp h)), hrx, Nat.mod_eq_of_lt (by omega)]
-  unfold recoverPublicKey
+  unfold recoverPublicKeyLegacy
   have hrange : ¬ (r = 0 ∨ r ≥ n ∨ s = 0 ∨ s ≥ n) := by omega
   rw [if_neg hrange]
-  unfold recover
+  unfold recoverLegacy
   rcases hcase with ⟨hs, hrec⟩ | ⟨hs, hrec⟩
   · -- S not negated: the reconstructed point is k·G
     have hx2 := hrx' (recid &&& 2 ≠ 0) (by rw [hrec]; exact hbits.1)
@@ -177,6 +177,37 @@ theorem recover_sign_core (d k r s recid : Nat) (hb : Bytes)
       (by rw [Nat.cast_sub (Nat.le_of_lt hkn), ZMod.natCast_self, zero_sub, neg_one_mul])
     rw [nsmul_G_congr _ _ hsc, ← mul_G]
 
+
+omit L in
+/-- current code = pinned-snapshot computation followed by the refusal of the point at infinity -/
+theorem recoverPublicKey_eq (r s : Nat) (hb : Bytes) (recid : Nat) :
+    recoverPublicKey r s hb recid =
+      match recoverPublicKeyLegacy r s hb recid with
+      | some (some q) => some (some q)
+      | _ => none := by
+  unfold recoverPublicKey recoverPublicKeyLegacy
+  by_cases hrange : r = 0 ∨ r ≥ n ∨ s = 0 ∨ s ≥ n
+  · rw [if_pos hrange, if_pos hrange]
+  rw [if_neg hrange, if_neg hrange]
+  unfold recover recoverLegacy
+  simp only
+  by_cases h1 : recid &&& 2 ≠ 0 ∧ (if recid &&& 2 ≠ 0 then r + n else r) ≥ p
+  · rw [if_pos h1, if_pos h1]
+  rw [if_neg h1, if_neg h1]
+  cases hv : isValid (if recid &&& 2 ≠ 0 then r + n else r)
+      (setXO (if recid &&& 2 ≠ 0 then r + n else r) (decide (recid &&& 1 ≠ 0))) with
+  | false => simp
+  | true =>
+    simp only [Bool.not_true, Bool.false_eq_true, ↓reduceIte]
+    cases ecmult _ _ _ <;> rfl
+
+/-- `Signature.RecoverPublicKey` on an output of `Signature.Sign` (with R ≠ 0 mod n) returns the
+    signer's public key d·G — and nothing (nil) when d·G is the point at infinity, i.e. d ≡ 0 mod n. -/
+theorem recover_sign_core (d k r s recid : Nat) (hb : Bytes)
+    (h : sign d (beVal hb) k = some (r, s, recid)) (hr : r ≠ 0) :
+    recoverPublicKey r s hb recid = (mul d G).map some := by
+  rw [recoverPublicKey_eq, recover_sign_core_legacy d k r s recid hb h hr]
+  cases mul d G <;> rfl
 
 /-! ### at the level of bytes: `btc.EcdsaVerify(pubkey, sig.Bytes(), hash)` -/
 
